@@ -698,6 +698,92 @@ def outside_twins(ck, seed, n_rounds):
                 ck.oracle_fail("later-call-differs-after-failed-call:" + name, {"first": name, "seeds": seeds, "call": k}, got[k], twin[k])
 
 
+def soft_twins(ck, seed, n_rounds):
+    """Calls that fail or are aborted while soft constraints are in play (class level, inline, both), then calls whose result
+    depends on the precedence among soft constraints (an inline soft constraint that contradicts a class one, two class ones
+    that contradict each other) - against the history without the failed calls."""
+    import vsc
+    from vsc.model.rand_state import RandState
+    rng = random.Random("C16/soft/%d" % seed)
+
+    def classes():
+        @vsc.randobj
+        class P:
+            def __init__(self):
+                self.a = vsc.rand_uint8_t()
+                self.b = vsc.rand_uint8_t()
+                self.boom = False
+
+            def post_randomize(self):
+                if self.boom:
+                    self.boom = False
+                    raise common.FaultInjected("post_randomize")
+
+            @vsc.constraint
+            def c(self):
+                vsc.soft(self.a == 1)
+                vsc.soft(self.a == 3)
+                self.b < 10
+        return P
+
+    def unsat_with_soft(p):
+        with p.randomize_with() as it:
+            vsc.soft(it.a == 2)
+            it.b > 20
+
+    def unsat_plain(p):
+        with p.randomize_with() as it:
+            it.b > 20
+
+    def post_raises_with_soft(p):
+        p.boom = True
+        with p.randomize_with() as it:
+            vsc.soft(it.a == 2)
+
+    def two_failures(p):
+        for _ in range(2):
+            try:
+                unsat_plain(p)
+            except Exception:
+                pass
+        unsat_with_soft(p)
+    firsts = [("unsat-with-inline-soft", unsat_with_soft), ("unsat-plain", unsat_plain), ("post_randomize-raises-with-inline-soft", post_raises_with_soft),
+              ("several-failures", two_failures)]
+
+    def history(first, seeds):
+        p = classes()()
+        if first is not None:
+            p.set_randstate(RandState.mkFromSeed(seeds[0]))
+            try:
+                with common.quiet():
+                    first(p)
+            except Exception:
+                pass
+        out = []
+        for k, sd in enumerate(seeds[1:]):
+            p.set_randstate(RandState.mkFromSeed(sd))
+            try:
+                with common.quiet():
+                    if k % 2 == 0:
+                        with p.randomize_with() as it:
+                            vsc.soft(it.a == 2)
+                    else:
+                        p.randomize()
+                out.append(["ok", int(p.a), int(p.b) < 10])
+            except Exception as e:
+                out.append(["raised", type(e).__name__])
+        return out
+    for rnd in range(n_rounds):
+        seeds = [rng.randrange(1 << 30) for _ in range(5)]
+        twin = history(None, seeds)
+        for name, first in firsts:
+            got = history(first, seeds)
+            ck.count("eval_soft_twins")
+            if got != twin:
+                k = next(i for i in range(len(twin)) if got[i] != twin[i])
+                ck.oracle_fail("later-call-differs-after-failed-call:soft:" + name, {"first": name, "seeds": seeds, "call": k}, got[k], twin[k])
+
+
 def main():
     tier, seed, replay = common.parse_args(sys.argv[1:])
     ck = common.Check("C16", tier, seed, ["C16", "C16Rollback"])
@@ -712,6 +798,7 @@ def main():
     S_.install()
     growth_twins(ck, seed, 40 if tier == "thorough" else 3)
     outside_twins(ck, seed, 40 if tier == "thorough" else 3)
+    soft_twins(ck, seed, 40 if tier == "thorough" else 3)
     for r in results:
         for k, v in r["counts"].items():
             ck.count(k, v)
